@@ -18,6 +18,7 @@ package c10
 
 import (
 	"encoding/json"
+	"errors"
 	"fmt"
 	"os"
 	"path/filepath"
@@ -106,7 +107,7 @@ func c02Job(cfg c02.Config, prog []c02.Op, seed int64) job {
 		if err != nil {
 			return nil, err
 		}
-		if !run.Closed {
+		if !run.Closed || len(run.Data) == 0 {
 			return nil, errNotClosed
 		}
 		p := &produced{Source: "c02-program", Data: run.Data, Replay: map[string]any{"kind": "c02", "cfg": cfg, "prog": prog, "seed": seed}}
@@ -188,14 +189,14 @@ func runJobs(jobs []job) ([]Record, int, error) {
 				}
 			}()
 			p, err := jobs[i]()
-			if err == errNotClosed {
+			if errors.Is(err, errNotClosed) {
 				return
 			}
 			if err != nil {
 				errs[i] = err
 				return
 			}
-			if p == nil || p.Data == nil {
+			if p == nil || len(p.Data) == 0 {
 				return
 			}
 			recs[i], errs[i] = observe(p)
